@@ -45,6 +45,7 @@ func ConstructLALR(g *Grammar) *ParserTable {
 				if changed {
 					pendingSet.Add(toKey)
 				}
+				verifTrace(from, sym, t.GetStateByKey(toKey), existingTo == nil, changed)
 			}
 		}
 	}
